@@ -194,6 +194,23 @@ class Cache:
             self._norm_cased_files[norm_cased_filename] = None
             self._started_files.append(filename)
 
+    def cancel_building_file(self, filename):
+        """Undo the specified call to ``start_building_file``.
+
+        This is for the case where we were unable to prepare for
+        building the file, so we are not going to build it after all.
+
+        Arguments:
+            filename (str): The non-norm-cased filename.
+        """
+        norm_cased_filename = os.path.normcase(filename)
+        with self._files_lock:
+            if (filename in self._files and
+                    self._files[filename] is None):
+                self._files.pop(filename)
+                self._norm_cased_files.pop(norm_cased_filename, None)
+                self._started_files.remove(filename)
+
     def started_files(self):
         """Return the files passed to ``start_building_file``.
 
